@@ -16,7 +16,7 @@ for pid in sorted(PROPS):
         evidence_file=f"/verif/evidence/{pid}.json",
         replay_cmd_template=f"./check {pid} --replay {{path}}",
         engine="tlc+mv",
-        level_claimed=dict(category="model_checking", text=c["text"], design_ref=c.get("design_ref", "DESIGN.md §6")),
+        level_claimed=dict(category="model_checking", text=c["text"] + (" " + c["text_extra"] if c.get("text_extra") else ""), design_ref=c.get("design_ref", "DESIGN.md §6")),
         level_note=c["note"],
         technique=c.get("technique", "TLA+ spec checked by TLC; TLC behaviours replayed into the real code under a baton scheduler; real schedules explored against the spec's oracle"),
     ))
